@@ -420,9 +420,81 @@ func runC16(c *Ctx) {
 	// a brute-force scan and an indexed query both read the stored receipts and logs: their storage codecs must not
 	// lose a field (decided by C03's codec symmetry rule, shared here)
 	c.Borrow("C03", runC03, map[string]string{"C03-R6": "C16-R5"})
+
+	c.Rule("C16-R6", "bloom-bits indexer backend: a section is built from a fresh generator, fed by block offset and written whole under its head", func() {
+		// ChainIndexer re-processes a section after a reorg (Reset, Process x size, Commit). Generator.AddBloom refuses
+		// out-of-order blooms and Process has no error result, so a generator that survives a Reset keeps serving the
+		// abandoned branch's bits: the index then misses canonical logs without any error.
+		rs := c.Fn("aqua:(*BloomIndexer).Reset")
+		var all []*pstate
+		for _, r := range c.Facts(rs).AllReturns() {
+			all = append(all, r.State)
+		}
+		c.mustStates("C16-R6", rs, "return", all, []LitReq{
+			{Name: "Reset installs a freshly allocated generator on every path", Re: `^store:BloomIndexer#0\.gen=bloombits\.NewGenerator\(BloomIndexer#0\.size\)#0$`},
+			{Name: "Reset records the section being built", Re: `^store:BloomIndexer#0\.section=uint64#0$`},
+			{Name: "Reset forgets the previous section head", Re: `^store:BloomIndexer#0\.head=zero\(Hash\)$`},
+		})
+		pr := c.Fn("aqua:(*BloomIndexer).Process")
+		all = nil
+		for _, r := range c.Facts(pr).AllReturns() {
+			all = append(all, r.State)
+		}
+		c.mustStates("C16-R6", pr, "return", all, []LitReq{
+			{Name: "Process adds the header's bloom at offset number - section*size", Re: `^called:BloomIndexer#0\.gen\.AddBloom\(\(Header#0\.Number\.Uint64\(\) (- \((BloomIndexer#0\.section \* BloomIndexer#0\.size|BloomIndexer#0\.size \* BloomIndexer#0\.section)\)|% BloomIndexer#0\.size)\), Header#0\.Bloom\)$`}, // the driver feeds in-section headers only, so number % size is the same offset
+			{Name: "Process records the header as section head", Re: `^store:BloomIndexer#0\.head=Header#0\.Hash\(\)$`},
+		})
+		cm := c.Fn("aqua:(*BloomIndexer).Commit")
+		fc := c.Facts(cm)
+		sites := callSites(cm, `^core\.WriteBloomBits$`)
+		c.Ob("C16-R6", "Commit writes bit vectors at one site", c.FnPos(cm), len(sites) == 1, fmt.Sprintf("%d", len(sites)))
+		for _, cs := range sites {
+			a := cs.Common().Args
+			var ts []string
+			for _, x := range a[1:] {
+				ts = append(ts, c.termOf(cm, x))
+			}
+			ph := indexPhiOfValue(a[1])
+			init, step, okP := phiInitStepOf(c, cm, ph)
+			self := ""
+			if ph != nil {
+				self = fc.tr.term(nil, ph, 0)
+			}
+			ok := okP && init == "0" && step == "("+self+" + 1)" && len(ts) == 4 && ts[0] == self && ts[1] == "BloomIndexer#0.section" && ts[2] == "BloomIndexer#0.head" &&
+				ts[3] == "bitutil.CompressBytes(BloomIndexer#0.gen.Bitset("+self+")#0)"
+			c.Ob("C16-R6", "Commit stores bit i of the generator, compressed, under (i, section, head) for i = 0, 1, ...", c.Position(cs.Pos()), ok, strings.Join(ts, " | "))
+		}
+		var done []*pstate
+		for _, r := range fc.AcceptingReturns(-1, false) {
+			done = append(done, r.State)
+		}
+		c.mustStates("C16-R6", cm, "accepting return", done, []LitReq{
+			{Name: "Commit succeeds only after all 2048 bit vectors were handled and the batch was written", Re: `^phi:\w+(~\d+)? >= 2048$`},
+			{Name: "Commit flushes the batch", Re: `^called:BloomIndexer#0\.db\.NewBatch\(\)\.Write\(\)$`},
+		})
+		// the driver: Reset first (and successful), every header linked to its predecessor, Commit last
+		ps := c.Fn("core:(*ChainIndexer).processSection")
+		hdr := `core\.GetHeaderNoVersion\(ChainIndexer#0\.chainDb, .*, ` + PH + `\)`
+		c.MustBefore("C16-R6", ps, `Backend\.Process$`, 1, []LitReq{
+			{Name: "a section is processed only after the backend was reset for it", Re: `^ChainIndexer#0\.backend\.Reset\(uint64#0, Hash#0\) == nil$`},
+			{Name: "every processed header is the canonical child of the previous one", Re: `^` + hdr + `\.ParentHash == ` + PH + `$`},
+			{Name: "only headers below (section+1)*size are processed", Re: `^` + PH + ` < \(\(uint64#0 \+ 1\) \* ChainIndexer#0\.sectionSize\)$`},
+		})
+		c.MustOnAccept("C16-R6", ps, -1, false, []LitReq{
+			{Name: "a section is reported done only after the backend committed it", Re: `^ChainIndexer#0\.backend\.Commit\(\) == nil$`},
+			{Name: "a section is reported done only after all its headers were processed", Re: `^` + PH + ` >= \(\(uint64#0 \+ 1\) \* ChainIndexer#0\.sectionSize\)$`},
+		})
+	})
+	c.Min("C16-R6", 14)
 }
 
 func regexpQuote(s string) string {
 	r := strings.NewReplacer(`\`, `\\`, `(`, `\(`, `)`, `\)`, `[`, `\[`, `]`, `\]`, `.`, `\.`, `+`, `\+`, `*`, `\*`, `?`, `\?`, `$`, `\$`, `^`, `\^`, `|`, `\|`)
 	return r.Replace(s)
+}
+
+// indexPhiOfValue: v itself (through conversions) when it is a loop phi.
+func indexPhiOfValue(v ssa.Value) *ssa.Phi {
+	p, _ := stripConvAll(v).(*ssa.Phi)
+	return p
 }
